@@ -520,12 +520,99 @@ def fixed_lostRst : List Op :=
     .egress, .egress, .egress, .egress, .egress, .egress, .stat]
 
 set_option maxRecDepth 100000 in
-/-- With the orphan-timeout repair (`fixOrphanTimeout`: `check_retx` also sweeps sockets the
+/-- A wider repair that was not adopted (`fixOrphanTimeout`: `check_retx` sweeps every socket the
     application has closed, so a silent one is aborted after `retx_threshold · (retx_max + 1)`
-    passes and reaped) the same history reclaims everything. -/
-theorem fixed_F_C13_2 :
+    passes and reaped) also reclaims everything in that history — but it would abort an orphaned
+    sender whose data or FIN legitimately waits behind a slow reader's closed window. -/
+theorem alt_F_C13_2_orphanTimeout :
     Spec.c13Check { fixOrphanTimeout := true } (Spec.modelHistory { fixOrphanTimeout := true } 2 fixed_lostRst) = none := by
   decide
+
+/-- The F-C13-2 history on the committed trees (same ops before and after the repair: handshake, 3
+    bytes, the client shuts down and its FIN is acknowledged, both applications drop — the server with
+    the 3 bytes unread, so it answers with one RST and forgets the connection —, that RST is lost, the
+    listener is dropped, 36 silent egress rounds, `stat`). -/
+def lostRst_committed : List Op :=
+    [.listen 1 0 ⟨.host 1 false, 9000⟩, .connect 0 0 0 ⟨.host 1 false, 9000⟩, .egress, .deliver 0, .egress,
+    .deliver 1, .cpoll 0 0, .egress, .deliver 2, .accept 0 1, .write 0 [1, 2, 3], .egress, .deliver 3,
+    .egress, .deliver 4, .shutdown 0, .egress, .deliver 5, .egress, .deliver 6, .sdrop 0, .egress,
+    .sdrop 1, .egress, .drop 7, .ldrop 0, .egress, .egress, .egress, .egress, .egress, .egress, .egress,
+    .egress, .egress, .egress, .egress, .egress, .egress, .egress, .egress, .egress, .egress, .egress,
+    .egress, .egress, .egress, .egress, .egress, .egress, .egress, .egress, .egress, .egress, .egress,
+    .egress, .egress, .egress, .egress, .egress, .egress, .egress, .stat]
+
+set_option maxRecDepth 100000 in
+/-- F-C13-2 on the tree with all eight earlier repairs (`Cfg.committed8`, /repo 7797aa0): still
+    refuted — none of them gives a `FIN_WAIT2` socket a timer. -/
+theorem witness_F_C13_2_committed8 : ¬ C13_Reclaim_Statement Cfg.committed8 := by
+  intro h
+  exact absurd (h lostRst_committed) (by decide)
+
+set_option maxRecDepth 100000 in
+/-- With the repair (`fixFinWait2Timeout`, the narrow form — Linux `tcp_fin_timeout`: `check_retx`
+    also sweeps a socket the application has closed that sits in `FIN_WAIT2`; its FIN is acknowledged,
+    its send buffer is empty, it owes the peer nothing and only waits for the peer's FIN; after
+    `retx_threshold · (retx_max + 1)` passes it is aborted and `reap_closed` collects it) the very
+    same history reclaims everything on the committed tree, and at the `stat` both hosts have empty
+    tables. -/
+theorem fixed_F_C13_2 :
+    Spec.c13Check Cfg.committed (Spec.modelHistory Cfg.committed 2 lostRst_committed) = none ∧
+    ((Sys.init Cfg.committed 2).run lostRst_committed).2.getLast? =
+      some [Obs.cnt 0 0 0 0 0 0, Obs.cnt 1 0 0 0 0 0] := by
+  refine ⟨by decide, by decide⟩
+
+/-- The repair changes the timers of no other socket: with `fixFinWait2Timeout` the retransmit sweep
+    visits exactly the sockets it visited before plus the application-closed sockets in `FIN_WAIT2`
+    (so a sender waiting behind a slow reader's closed window — `Established` / `FIN_WAIT1` /
+    `CLOSE_WAIT` / `LAST_ACK` — is never aborted by it). -/
+theorem finWait2_timeout_candidates (cfg : Cfg) (k : Kernel) (fd : Nat) :
+    fd ∈ Kernel.retxCands { cfg with fixFinWait2Timeout := true } k ↔
+      (fd ∈ Kernel.retxCands { cfg with fixFinWait2Timeout := false } k ∨
+        ∃ s t, (fd, s) ∈ k.sockets ∧ s.tcb = some t ∧ s.fdClosed = true ∧ t.state = .finWait2) := by
+  unfold Kernel.retxCands
+  simp only [List.mem_filterMap]
+  constructor
+  · rintro ⟨e, he, hv⟩
+    cases ht : e.2.tcb with
+    | none => rw [ht] at hv; cases hv
+    | some t =>
+      rw [ht] at hv
+      dsimp only at hv
+      by_cases hold : (t.retxCandidate || (cfg.fixOrphanTimeout && e.2.fdClosed && t.state != .closed)) = true
+      · left
+        refine ⟨e, he, ?_⟩
+        rw [ht]
+        dsimp only
+        simp only [Bool.false_and, Bool.or_false, hold, if_true]
+        simp only [Bool.true_and, hold, Bool.true_or, if_true] at hv
+        exact hv
+      · right
+        simp only [Bool.true_and, Bool.not_eq_true] at hold hv
+        rw [hold, Bool.false_or] at hv
+        split at hv
+        · rename_i hc
+          cases hv
+          simp only [Bool.and_eq_true, beq_iff_eq] at hc
+          exact ⟨e.2, t, he, ht, hc.1, hc.2⟩
+        · cases hv
+  · rintro (⟨e, he, hv⟩ | ⟨s, t, he, ht, hfc, hst⟩)
+    · refine ⟨e, he, ?_⟩
+      revert hv
+      cases e.2.tcb with
+      | none => intro hv; cases hv
+      | some t =>
+        dsimp only
+        simp only [Bool.false_and, Bool.or_false]
+        intro hv
+        split at hv
+        · rename_i hc
+          cases hv
+          simp [hc]
+        · cases hv
+    · refine ⟨(fd, s), he, ?_⟩
+      dsimp only
+      rw [ht]
+      simp [hfc, hst]
 
 def cfgSmallWindow : Cfg := { recvCap := 4 }
 
